@@ -198,6 +198,11 @@ type evRec struct {
 	signo       *int32
 	aliveAtRecv bool
 	known       bool
+	// what the event says about itself through its accessors (what the emulator's events watcher reads)
+	terminated           bool
+	success              bool
+	text                 string
+	viaExited, viaSignal *int32
 }
 
 func (e evRec) render() string {
@@ -281,6 +286,18 @@ func (r *rec) onEvent(ev model.Event) {
 	if ev.Event.Signo != nil {
 		v := *ev.Event.Signo
 		e.signo = &v
+	}
+	if t := ev.Event.ProcessTerminated(); t != nil {
+		e.terminated = true
+		e.success, e.text = t.Success(), t.String()
+		if v := t.Exited(); v != nil {
+			c := *v
+			e.viaExited = &c
+		}
+		if v := t.Signaled(); v != nil {
+			c := *v
+			e.viaSignal = &c
+		}
 	}
 	if pid := r.pidOf(e.name); pid != 0 {
 		e.known = true
